@@ -258,6 +258,29 @@ theorem C17_render_total (lang : Bytes → Bytes) (m : Msg) :
     (∃ r, clearString lang m = .ok r) ∧ (∃ r, ansiString lang m = .ok r) :=
   ⟨clearString_ok lang m, ansiString_ok lang m⟩
 
+/-- **The last language set wins**: after any sequence of `SetLanguage` calls that ends with `last`, from any
+starting table, `ClearString()` and `String()` render every component exactly as under `last` alone — a pure
+function of the last argument: nothing of an earlier language (nor of the initial English table) shows through,
+and selecting English again restores English. With no call the table is the initial one. -/
+theorem C17_language_last_wins (init : Bytes → Bytes) (steps : List (Bytes → Bytes)) (last : Bytes → Bytes) (m : Msg) :
+    languageAfter init (steps ++ [last]) = last
+    ∧ clearString (languageAfter init (steps ++ [last])) m = clearString last m
+    ∧ ansiString (languageAfter init (steps ++ [last])) m = ansiString last m
+    ∧ languageAfter init [] = init := by
+  have h : languageAfter init (steps ++ [last]) = last := by
+    simp [languageAfter, List.foldl_append, setLanguage]
+  exact ⟨h, by rw [h], by rw [h], rfl⟩
+
+/-- language A knows key `k` as `%[2]s %[1]s`, English (selected afterwards) as `%s %s`: `k` with X, Y renders
+as `X Y`, not `Y X` -/
+example :
+    let en : Bytes → Bytes := fun k => if k = [0x6b#8] then [0x25#8, 0x73#8, 0x20#8, 0x25#8, 0x73#8] else []
+    let a : Bytes → Bytes := fun k =>
+      if k = [0x6b#8] then [0x25#8, 0x5b#8, 0x32#8, 0x5d#8, 0x73#8, 0x20#8, 0x25#8, 0x5b#8, 0x31#8, 0x5d#8, 0x73#8] else []
+    clearString (languageAfter en [a, en])
+        { Msg.zero with translate := [0x6b#8], args := [.inr [0x58#8], .inr [0x59#8]] }
+      = .ok ([0x58#8, 0x20#8, 0x59#8], true) := by decide +kernel
+
 /-- **Plain mode removes the format codes**: on every byte string `TransCtrlSeq(s, false)` is `Spec.strip s`,
 the left-to-right deletion of `§` followed by one of `0-9 a-f k-o r` in either case; nothing else is touched. -/
 theorem C17_clear_strips (s : Bytes) : transCtrlSeq false s = .ok (strip s, false) :=
